@@ -2,7 +2,7 @@
    Only statements, closed by `exact`.  The full-strength statements that are not (yet) proved are the
    Definitions C11_*_statement of Proofs/Idna_Hyp.v; see theorem_notes in tools/props_d/C11.py. *)
 From RU Require Import Base.Prelude Base.Utf8 Base.U32_c13 Gen.Tables Model.Punycode Model.Uts46
-  Proofs.Idna_Sim Proofs.Idna_Api Proofs.Idna_Known Proofs.Idna_Hyp Proofs.Idna_Tables.
+  Proofs.Idna_Sim Proofs.Idna_Api Proofs.Idna_Known Proofs.Idna_Hyp Proofs.Idna_Tables Proofs.Idna_Redisc.
 
 (* the core: for EVERY adapter, the fail-fast run of process_inner returns early exactly when the
    marking run sets had_errors, and otherwise the two runs produce the same buffers *)
@@ -12,6 +12,17 @@ Proof. exact process_inner_sim. Qed.
 Check C11_inner_sim : forall A cfg hy deny d, Redisc A cfg deny ->
   inner_sim (process_inner A cfg true hy deny d) (process_inner A cfg false hy deny d).
 Print Assumptions C11_inner_sim.
+
+(* the premise Redisc follows from three elementary facts: the adapter maps the empty text to the
+   empty text, upper-case letters are in the deny list (C10_deny_upper: true of EMPTY, STD3, URL), and
+   has_punycode_prefix accepts exactly the sixteen spellings of xn-- on ASCII text (XnPrefixSpec, a
+   statement about the regenerated mask constants; sampled in C12_consts, not proved in general) *)
+Theorem C11_redisc : forall A cfg deny,
+  map_normalize A [] = [] -> DenyUpper deny -> XnPrefixSpec -> Redisc A cfg deny.
+Proof. exact redisc_holds. Qed.
+Check C11_redisc : forall A cfg deny,
+  map_normalize A [] = [] -> DenyUpper deny -> XnPrefixSpec -> Redisc A cfg deny.
+Print Assumptions C11_redisc.
 
 (* same verdict, API level: mark-errors error => fail-fast error; fail-fast error => mark-errors error,
    or (only without debug assertions) the marking run returned Passthrough with had_errors set *)
